@@ -1441,11 +1441,34 @@ pub fn adsr_fine(r: &mut Rng, n: usize, out: &mut Vec<String>) {
                     }
                 }
                 let key = r.pick(&["a", "d", "r"]);
-                out.push(format!("set {} {}", key, b(r.pick(&pool))));
+                let newv = r.pick(&pool);
+                out.push(format!("set {} {}", key, b(newv)));
+                for _ in 0..r.range(5, 20) {
+                    out.push("tick".into());
+                }
+                // the same parameter written again with a value next to the one in effect (pot jitter): an ulp, a few ulps,
+                // a fraction of a percent
+                for _ in 0..r.range(1, 4) {
+                    let near = match r.below(5) {
+                        0 => f32::from_bits(newv.to_bits() + 1),
+                        1 => f32::from_bits(newv.to_bits() - r.range(1, 40) as u32),
+                        2 => newv * (1.0 + r.pick(&[9e-5f32, -9e-5, 2e-5, 5e-4, -5e-4])),
+                        3 => newv * r.pick(&[1.001f32, 0.999, 1.01]),
+                        _ => newv,
+                    };
+                    for k in ["a", "d", "r"] {
+                        if k == key || r.chance(1, 3) {
+                            out.push(format!("set {} {}", k, b(near)));
+                        }
+                    }
+                    for _ in 0..r.range(1, 30) {
+                        out.push("tick".into());
+                    }
+                }
                 for _ in 0..r.range(20, 120) {
                     out.push("tick".into());
                 }
-                left -= 160;
+                left -= 220;
             }
         }
     }
@@ -2010,6 +2033,18 @@ pub fn midi_long(r: &mut Rng, _n: usize, out: &mut Vec<String>) {
         }
         bend_probes(r, c, out);
     }
+    // 3b. a system-exclusive dump longer than 2^16 bytes arriving under a running status, real-time bytes inside
+    {
+        let c = head(r, out);
+        push_bytes(out, &[0x90 + c, 60, 100, 0xB0 + c, 7, 90, 0xF0]);
+        for k in 0..66_200u64 {
+            push_bytes(out, &[(k * 37 + k / 128) % 128]);
+            if k % 9001 == 0 {
+                push_bytes(out, &[0xF8]);
+            }
+        }
+        push_bytes(out, &[0xF7, 0x90 + c, 62, 100]);
+    }
     // 4. long runs of one controller message and of an ignored one
     for (run, cc) in [(1_100u64, 1u64), (66_000, 7), (4_200, 3)] {
         let c = head(r, out);
@@ -2131,6 +2166,47 @@ pub fn lfo_long(r: &mut Rng, _n: usize, out: &mut Vec<String>) {
     }
 }
 
+pub fn glide_long(r: &mut Rng, _n: usize, out: &mut Vec<String>) {
+    // one processor held on one input for far longer than a second (the filter stalls short of the input at the f32
+    // resolution when sample rate x time is large), then the input moves, or the time is changed with the input held
+    for (sr, t) in [(2500.0f32, 10.0f32), (4000.0, 10.0), (8000.0, 5.0), (6000.0, 20.0)] {
+        for branch in 0..3 {
+            out.push(format!("glide new {}", b(sr)));
+            out.push(format!("time {}", b(0.0)));
+            let base = r.pick(&[1.0f32, 2.5, -1.0, 0.3]);
+            for _ in 0..12 {
+                out.push(format!("proc {}", b(base)));
+            }
+            out.push(format!("time {}", b(t)));
+            let step = base * (1.0 + r.pick(&[0.001f32, 0.0005, 0.002, 0.01]));
+            let hold = sr as u64 + 4_200 + r.below(300);
+            for _ in 0..hold {
+                out.push(format!("proc {}", b(step)));
+            }
+            match branch {
+                0 => {
+                    let next = step + r.pick(&[1.0f32, -1.0, 0.2]);
+                    for _ in 0..60 {
+                        out.push(format!("proc {}", b(next)));
+                    }
+                }
+                1 => {
+                    out.push(format!("time {}", b(0.0)));
+                    for _ in 0..40 {
+                        out.push(format!("proc {}", b(step)));
+                    }
+                }
+                _ => {
+                    out.push(format!("time {}", b(r.pick(&[0.2f32, 1.0, 0.06]))));
+                    for _ in 0..(sr as u64 / 2) {
+                        out.push(format!("proc {}", b(step)));
+                    }
+                }
+            }
+        }
+    }
+}
+
 pub fn stream(name: &str, seed: u64, n: usize) -> Vec<String> {
     let mut r = Rng::new(seed.wrapping_mul(0x100_0000_01B3) ^ name.bytes().fold(0u64, |a, c| a.wrapping_mul(131) + c as u64));
     let mut out = Vec::with_capacity(n + 16);
@@ -2140,6 +2216,7 @@ pub fn stream(name: &str, seed: u64, n: usize) -> Vec<String> {
         "midi_long" => midi_long(&mut r, n, &mut out),
         "quant_long" => quant_long(&mut r, n, &mut out),
         "lfo_long" => lfo_long(&mut r, n, &mut out),
+        "glide_long" => glide_long(&mut r, n, &mut out),
         "adsr_fine" => adsr_fine(&mut r, n, &mut out),
         "midi_fine" => midi_fine(&mut r, n, &mut out),
         "quant_fine" => quant_fine(&mut r, n, &mut out),
